@@ -1,13 +1,13 @@
 SPECIFICATION Spec
 CONSTANTS
-  MaxRepeats = 5
+  MaxRepeats = 6
   PreDispatch = 3
   Scores <- ScoresDef
   Inf = 99
   MaxFail = 2
   MaxHist = FALSE
-  StopRule = "none"
-  Amount = 0
+  StopRule = "equil"
+  Amount = 1
   CheckFirst = FALSE
   JIT = FALSE
 INVARIANT NoMoreThanRequested
